@@ -26,7 +26,8 @@ TECHNIQUE = 'bounded exhaustive program enumeration x all branch-outcome sequenc
 RULE = ('strata S1 (term shapes: 28 names x 5 kind spellings x 9 index forms x 5 contexts + LHS uses), S2 (every binary/unary/call/ternary context over ordered '
         'tuples of 13 leaves), S3 (all expression shapes up to 5 (quick) / 6 (thorough) nodes over 4 leaves), S4 (all 2-3 equation systems over 8 (quick) / 12 '
         '(thorough) right-hand sides and every LHS ordering), SV (partial verbatim fragments), SL (47 contexts kept exactly as spelled: separate bracket groups, blanks before a call bracket, no blanks round operators); each accepted program x every feasible t x every branch-outcome sequence. '
-        'plus 4 numeric vectors (the last seeds every variable at instantiation from one caller-owned array). non-trivial = accepted program whose evaluation writes at least one cell; distinct by script text')
+        'plus 4 numeric vectors (the last seeds every variable at instantiation from one caller-owned array). non-trivial = accepted program whose evaluation writes at least one cell; distinct by script text'
+        " Every accepted program also as a comment twin (a comment with an unbalanced bracket, '=' and a term on each line; fenced statements wrapped in an indented block with comments; class built with with_type_hints=False): same names, same LAGS/LEADS, same pass. LAGS/LEADS of every class equal the longest lag/lead written.")
 ASSUMPTIONS = [
     'scripts the parser rejects with its own error classes are not violations of C01 (C13/C14 judge rejections)',
     'elementary float operations, CPython operator dispatch, NumPy ufunc dispatch on objects and ast.unparse are trusted',
@@ -178,6 +179,9 @@ def check_program(p):
     extra = [n for n in Model.NAMES if n not in names]
     if extra:
         return [('symbols:extra:' + fk, names, list(Model.NAMES), 'the model has a variable that is not a term of the script (a function name or keyword taken for a variable?)')], 'accepted'
+    if (int(Model.LAGS), int(Model.LEADS)) != (lags, leads):
+        # "feasible period" is defined by the class's own LAGS / LEADS: they are the longest lag and lead written in the script
+        return [('lags-leads:' + fk, [lags, leads], [int(Model.LAGS), int(Model.LEADS)], 'the class declares other lag / lead lengths than the longest written in the script')], 'accepted'
     L = lags + leads + 2
     ref = p.ref_eqs()
     wrote = False
@@ -205,6 +209,21 @@ def check_program(p):
             out.append(('equation-text:' + fk, _short(a[:1]), _short(c[:1]), 'the normalised equation text denotes a different expression than the generated code (t=%d)' % t))
             break
     if not out:
+        # comments are part of the syntax: the same script with a comment on every line (one with an unbalanced bracket, '=' and a term),
+        # fenced statements wrapped in an indented block that carries comments too - and the class built without type hints:
+        # the same variables, the same lag / lead lengths, the same pass
+        twin = _comment_twin(script) if '#' not in script else script
+        try:
+            Twin = fsic.build_model(fsic.parse_model(twin), with_type_hints=False)
+            t = lags
+            a0 = symrec.run_model(Model, span, t)
+            a1 = symrec.run_model(Twin, span, t)
+            if list(Twin.NAMES) != list(Model.NAMES) or (int(Twin.LAGS), int(Twin.LEADS)) != (int(Model.LAGS), int(Model.LEADS)) or a0 != a1:
+                out.append(('twin:' + fk, [list(Model.NAMES), int(Model.LAGS), int(Model.LEADS), _short(a0[:1])], [list(Twin.NAMES), int(Twin.LAGS), int(Twin.LEADS), _short(a1[:1])],
+                            'the same script with comments, built without type hints, is another model: %r' % twin[:120]))
+        except Exception as e:
+            out.append(('twin:rejected:%s:%s' % (type(e).__name__, fk), 'accepted as without comments', repr(e)[:160], 'the same script with comments (built without type hints) is rejected: %r' % twin[:120]))
+    if not out:
         t = lags
         for vec in (0, 1, 2, 3):
             d = numeric_compare(p, Model, list(Model.NAMES), L, t, vec, span, label_pos)
@@ -212,6 +231,21 @@ def check_program(p):
                 out.append(('numeric:' + fk, d[1], d[2], 'bit-exact numeric cross-check differs (%s)' % d[0]))
                 break
     return out, 'accepted' if wrote else 'accepted-no-write'
+
+
+def _comment_twin(script):
+    lines, fenced = [], False
+    for line in script.split('\n'):
+        if line.startswith('```'):
+            fenced = not fenced
+            lines.append(line)
+        elif fenced:
+            if not lines[-1].startswith('if True:'):
+                lines.append('if True:  # a) always, see (3.7')
+            lines.append('    ' + line + '  # b) Zq = Hq[-3]')
+        else:
+            lines.append(line + '  # a) households, see (3.7: Zq = Hq[-3] + <zq>')
+    return '\n'.join(lines)
 
 
 def _spelling_twin(p, err):
